@@ -3,7 +3,7 @@ import copy
 import re
 import z3
 
-from .mir import FN_RE, FN_RE_UNIT
+from .mir import parse_header
 
 
 # ----------------------------------------------------------------------------- helpers
@@ -68,11 +68,8 @@ def last_seg(ty):
 class Fn:
     def __init__(self, m):
         h = m.header
-        mm = FN_RE.match(h) or FN_RE_UNIT.match(h)
         self.m = m
-        self.name = mm.group(1)
-        args = mm.group(2)
-        self.ret = mm.group(3) if mm.re is FN_RE else '()'
+        self.name, args, self.ret = parse_header(h)
         self.args = []
         for a in split_top(args):
             if not a:
@@ -665,6 +662,9 @@ class Exec:
             for p in split_top(mm.group(2)):
                 if ':' in p:
                     fields.append(self.operand(st, p.split(':', 1)[1], fn))
+            segs = strip_generics(mm.group(1)).split('::')
+            if len(segs) >= 2 and segs[-2].strip() in ENUMS and segs[-1].strip() in ENUMS[segs[-2].strip()]:
+                return Enum(segs[-1].strip(), fields, segs[-2].strip())
             return Struct(fields, last_seg(mm.group(1)))
         mm = re.match(r'^([\w:]+)\((.*)\)$', s)
         if mm:   # tuple-struct ctor e.g. InlineInt(copy _x)
@@ -672,8 +672,8 @@ class Exec:
             if len(args) == 1 and (z3.is_expr(args[0]) or isinstance(args[0], Big)):
                 return args[0]
             return Struct(args, last_seg(mm.group(1)))
-        mm = re.fullmatch(r'([\w:<>\', ]+)::([A-Z]\w*)', s)
-        if mm:      # unit enum variant
+        mm = re.fullmatch(r'([\w:<>\', ()&\[\];]+)::([A-Z]\w*)', s)
+        if mm and mm.group(1).count('(') == mm.group(1).count(')') and mm.group(1).count('<') == mm.group(1).count('>'):      # unit enum variant
             return Enum(mm.group(2), [], last_seg(mm.group(1)))
         return Opaque(f'rvalue {s[:60]}')
 
